@@ -142,7 +142,7 @@ func newStubTargets() []stubTarget {
 }
 
 func c07(c *wk.Ctx) {
-	c.Note("rule", "every input runs in the worker under accounting: no panic / fatal error; runtime TotalAlloc delta <= 64 MiB + 64*len(input) + 8 KiB per byte of signature / IDL text in the input (the combinator parsers turn over 2-4.4 KiB of garbage per text byte, linearly); process CPU time <= 5 s (a watchdog ends a case that is still running after 12 s of CPU or 12 GiB of heap and reports it under the same key). Inputs (<= 64 KiB): random bytes; valid encodings with each length / count / signature-length field replaced by 0xffffffff, 0x80000000, 0x7fffffff, caps and caps+1, 2^24, len+1; dynamic values with hostile signatures ([v], [()], deep nestings, long names, struct definitions whose names and types disagree in number). Entry points: Message.Read, value.NewValue, signature TypeReader.Read and encoding.Decoder.Decode for random signatures, ReadMetaObject, ReadObjectReference, ReadServiceInfo, ReadCapabilityMap, generated stub Receive (freshly generated Probe stub and the checked-in generic object stub: every action, argument payloads mutated), signature.Parse, idl.ParsePackage. Evaluations count inputs; distinct non-trivial = distinct (entry point, input class, length bucket, outcome).")
+	c.Note("rule", "every input runs in the worker under accounting: no panic / fatal error; runtime TotalAlloc delta <= 64 MiB + 64*len(input) + 8 KiB per byte of signature / IDL text in the input (the combinator parsers turn over 2-4.4 KiB of garbage per text byte, linearly); process CPU time <= 5 s (a watchdog ends a case that is still running after 12 s of CPU or 12 GiB of heap and reports it under the same key). Inputs (<= 64 KiB): random bytes; valid encodings with each length / count / signature-length field replaced by 0xffffffff, 0x80000000, 0x7fffffff, caps and caps+1, 2^24, len+1; valid IDL text cut anywhere and ending in the beginning of a comment; dynamic values with hostile signatures ([v], [()], deep nestings, long names, struct definitions whose names and types disagree in number). Entry points: Message.Read, value.NewValue, signature TypeReader.Read and encoding.Decoder.Decode for random signatures, ReadMetaObject, ReadObjectReference, ReadServiceInfo, ReadCapabilityMap, generated stub Receive (freshly generated Probe stub and the checked-in generic object stub: every action, argument payloads mutated), signature.Parse, idl.ParsePackage. Evaluations count inputs; distinct non-trivial = distinct (entry point, input class, length bucket, outcome).")
 	c.Guard(guardHeap, guardCPU)
 	scal := append(append([]rc.Kind{}, rc.AllScalars...), rc.Dyn)
 	inner := rc.GenOpts{Depth: 2, Width: 3, ComparableKeys: true, MaxAnonNest: 3}
@@ -238,6 +238,12 @@ func c07(c *wk.Ctx) {
 		mutants(rng, enc, fields, maxFields, func(class string, in []byte) {
 			hostile(c, "structs", i, fx.name, class, in, fx.f)
 		})
+	})
+
+	// IDL text: valid generated IDL cut anywhere, ending in the beginning of a comment
+	c.Cases("idltext", c.Pick(3000, 100000), func(i int, rng *rand.Rand) {
+		text := cutIDL(rng)
+		hostile(c, "idltext", i, "idl.ParsePackage", "cut-valid-idl", []byte(text), func(b []byte) error { _, err := idl.ParsePackage(b); return err })
 	})
 
 	// hostile signatures carried by dynamic values
